@@ -1,41 +1,108 @@
 /-
   Proofs for C06 (round trip).  Statements are restated in PycommProps/C06.lean.
+  Helper lemmas: PycommProofs/RTLemmas.lean (bytes, integers, text, leaves),
+  PycommProofs/RTMain.lean (the mutual induction over `Ty`/`Members`).
 -/
 import PycommProofs.CodecSpec
+import PycommProofs.RTMain
 namespace Pycomm
+open Pycomm.RT
 
+-- PROPERTY THEOREMS
+/-- Every canonical in-domain value of every tail-safe type (elementary, strings, bit strings, byte
+    placeholders, fixed arrays, all-named structures, Logix fixed-capacity strings, nested to any depth)
+    encodes, and decoding the encoding followed by ANY further bytes returns the value and leaves
+    exactly those further bytes: values compose in structures and arrays. -/
 theorem decode_encode (t : Ty) (v : PyVal) (h : Canon t v) :
     ∃ bs, encode t v = .ok bs ∧ ∀ rest, decode t (bs ++ rest) = .ok (v, rest) := by
-  sorry
+  obtain ⟨bs, h1, h2, _, _⟩ := full t v h
+  exact ⟨bs, h1, h2⟩
 
+/-- a canonical value of a positive-width type takes at least one byte -/
+theorem encode_ne_nil (t : Ty) (v : PyVal) (h : Canon t v) (hw : PosWidth t) (bs : Bytes)
+    (he : encode t v = .ok bs) : bs ≠ [] := by
+  obtain ⟨bs', h1, _, h3, _⟩ := full t v h
+  rw [he] at h1
+  cases h1
+  exact (h3 hw).1
+
+/-- a positive-width type with at least one canonical value raises BufferEmptyError on an empty buffer -/
+theorem decode_nil_of_canon (t : Ty) (v : PyVal) (h : Canon t v) (hw : PosWidth t) :
+    decode t [] = .error .bufferEmpty := by
+  obtain ⟨_, _, _, h3, _⟩ := full t v h
+  exact (h3 hw).2
+
+-- STATEMENT CHANGED: hypothesis `h0` added.  The original statement is false for `vs = []`:
+-- with t = .struct (.cons (some [97]) (.arr .all (.arr (.fixed 0) .bool)) (.cons (some [98]) .bool .nil))
+-- we have `t.isBits = none`, `PosWidth t`, `encode (.arr .all t) (.list []) = .ok []`, but
+-- `decode (.arr .all t) [] = .error .hang` (the inner unbounded array of zero-width elements spins
+-- on the empty buffer, so `decode t []` is `hang`, not `bufferEmpty`, and the outer loop propagates it).
+-- `PosWidth t` says nothing about the *kind* of failure on an empty buffer, and with `vs = []`
+-- no `Canon t x` hypothesis restricts `t`.  For `vs = []` the conclusion holds iff
+-- `decode t [] = .error .bufferEmpty`, so `h0` is the weakest possible repair; for `vs ≠ []` it is
+-- vacuous (see `decode_encode_unbounded_of_ne_nil`), and `decode_nil_of_canon` discharges it for any
+-- type that has a canonical value.
 theorem decode_encode_unbounded (t : Ty) (vs : List PyVal) (hb : t.isBits = none)
-    (hw : PosWidth t) (h : ∀ x ∈ vs, Canon t x) :
+    (hw : PosWidth t) (h : ∀ x ∈ vs, Canon t x)
+    (h0 : vs = [] → decode t [] = .error .bufferEmpty) :
     ∃ bs, encode (.arr .all t) (.list vs) = .ok bs ∧ decode (.arr .all t) bs = .ok (.list vs, []) := by
-  sorry
+  have hempty : decode t [] = .error .bufferEmpty := by
+    cases vs with
+    | nil => exact h0 rfl
+    | cons x xs => exact decode_nil_of_canon t x (h x (List.mem_cons_self)) hw
+  obtain ⟨bs, he, _, hd⟩ := list_roundtrip_all (encode t) (decode t) vs (fun x hx => by
+    obtain ⟨a, h1, h2, h3, _⟩ := full t x (h x hx)
+    exact ⟨a, h1, (h3 hw).1, h2⟩) hempty
+  refine ⟨bs, ?_, ?_⟩
+  · simp [encode, PyVal.len?, PyVal.seq?, hb, he]
+  · simp [decode, hd (bs.length + 1) (Nat.lt_succ_self _), hb]
+
+/-- the original statement of `decode_encode_unbounded`, for a non-empty list -/
+theorem decode_encode_unbounded_of_ne_nil (t : Ty) (vs : List PyVal) (hb : t.isBits = none)
+    (hw : PosWidth t) (h : ∀ x ∈ vs, Canon t x) (hne : vs ≠ []) :
+    ∃ bs, encode (.arr .all t) (.list vs) = .ok bs ∧ decode (.arr .all t) bs = .ok (.list vs, []) :=
+  decode_encode_unbounded t vs hb hw h (fun e => absurd e hne)
 
 theorem decode_encode_prefixed (k : IntK) (t : Ty) (vs : List PyVal) (hb : t.isBits = none)
     (hw : PosWidth t) (hk : k.signed = false) (hn : (vs.length : Int) ≤ k.hi) (h : ∀ x ∈ vs, Canon t x) :
     ∃ bs, encode (.arr (.pref k) t) (.list vs) = .ok bs ∧
       ∀ rest, decode (.arr (.pref k) t) (leBytes k.size vs.length ++ bs ++ rest) = .ok (.list vs, rest) := by
-  sorry
+  obtain ⟨bs, he, hd⟩ := list_roundtrip (encode t) (decode t) vs (fun x hx => by
+    obtain ⟨a, h1, h2, _, _⟩ := full t x (h x hx)
+    exact ⟨a, h1, h2⟩)
+  have hlen : vs.length ≤ bs.length := encodeList_len (encode t) vs
+    (fun x hx a ha => encode_ne_nil t x (h x hx) hw a ha) bs he
+  obtain ⟨_, hlt⟩ := packInt_nat k vs.length hk hn
+  refine ⟨bs, ?_, ?_⟩
+  · simp [encode, PyVal.len?, PyVal.seq?, hb, he]
+  · intro rest
+    have hnot : ¬ (vs.length > (bs ++ rest).length + 65536) := by simp; omega
+    simp only [decode, List.append_assoc, decodeIntNat_append k vs.length (bs ++ rest) hlt, hnot,
+      if_false, hd rest, hb]
+    simp
 
 theorem encode_fixed_truncates (n : Nat) (t : Ty) (vs extra : List PyVal) (hb : t.isBits = none)
     (hn : vs.length = n) :
     encode (.arr (.fixed n) t) (.list (vs ++ extra)) = encode (.arr (.fixed n) t) (.list vs) := by
-  sorry
+  subst hn
+  simp [encode, PyVal.len?, PyVal.seq?, hb]
+  omega
 
 theorem encode_tuple_eq_list (l : ArrLen) (t : Ty) (vs : List PyVal) :
     encode (.arr l t) (.tuple vs) = encode (.arr l t) (.list vs) := by
-  sorry
+  simp only [encode, PyVal.len?, PyVal.seq?]
 
 theorem struct_dict_eq_seq (ms : Members) (kvs : List (Name × PyVal)) (h : CanonMembers ms kvs) :
     encode (.struct ms) (.dict kvs) = encode (.struct ms) (.list (kvs.map (·.2))) := by
-  sorry
+  have := membersDict_eq_seq ms kvs [] h (by simp)
+  simp only [List.nil_append] at this
+  simp only [encode, PyVal.iter?, PyVal.seq?, this]
 
 theorem bits_roundtrip (k : IntK) (hk : k.signed = false) (bs : List Bool) (h : bs.length = 8 * k.size)
     (rest : Bytes) :
     ∃ enc, encode (.bits k) (.list (bs.map PyVal.bool)) = .ok enc ∧
       decode (.bits k) (enc ++ rest) = .ok (.list (bs.map PyVal.bool), rest) := by
-  sorry
+  obtain ⟨enc, he, hd, _, _⟩ := leaf_bits k (.list (bs.map PyVal.bool)) ⟨bs, rfl, h, hk⟩
+  exact ⟨enc, he, hd rest⟩
 
 end Pycomm
